@@ -8,6 +8,7 @@ and `data.len() + 1` units of fuel always suffice (the loop terminates).
 -/
 import StunVerif.Gen.FnMsg
 import StunVerif.Lemmas.Total
+import StunVerif.Props.SrcFnDecode
 namespace StunVerif.SrcFnIter
 open StunVerif
 
@@ -59,6 +60,7 @@ theorem next_spec (data : Bytes) : ∀ (fuel : Nat) (st : IterSt), rem data st <
   | succ fuel ih =>
     intro st hf hinv
     rw [Gen.iterNext]
+    simp only [SrcFnDecode.src_rawFromBytes]
     by_cases hge : st.dataI ≥ data.length
     · simp only [hge, if_true]
       have : rem data st = 0 := by unfold rem; omega
